@@ -62,7 +62,7 @@ def problems(tier):
         return fem.FieldContainer([fem.Field(region, dim=3)])
 
     def nh(field, sv=None):
-        return [fem.SolidBody(fem.NeoHooke(mu=1.0, bulk=5.0), field)]
+        return [fem.SolidBody(fem.NeoHooke(mu=1.25, bulk=5.0), field)]
 
     def add(name, field_fn, items_fn, lc="uniaxial", lckw=None, ramp=(0.1, 0.2), linear=False, tol=None, maxiter=8,
             stateful=False, extra_items=None):
@@ -77,7 +77,7 @@ def problems(tier):
     add("hex-linear-elastic", cube, lambda f, sv=None: [fem.SolidBody(fem.LinearElastic(E=2.0, nu=0.3), f)], linear=True,
         ramp=(0.1, 0.25))
     add("hex-ogden-roxburgh", cube,
-        lambda f, sv=None: [fem.SolidBody(fem.OgdenRoxburgh(fem.NeoHooke(mu=1, bulk=5), r=3, m=1, beta=0), f, statevars=sv)],
+        lambda f, sv=None: [fem.SolidBody(fem.OgdenRoxburgh(fem.NeoHooke(mu=1.25, bulk=5), r=3, m=0.75, beta=0.125), f, statevars=sv)],
         ramp=(0.2, 0.1, 0.3), stateful=True)
 
     def quad(n=4):
@@ -100,9 +100,9 @@ def problems(tier):
         return fem.FieldsMixed(region, n=3)
 
     add("hex-mixed-threefield", mixed,
-        lambda f, sv=None: [fem.SolidBody(fem.ThreeFieldVariation(fem.NeoHooke(mu=1.0, bulk=50.0)), f)])
+        lambda f, sv=None: [fem.SolidBody(fem.ThreeFieldVariation(fem.NeoHooke(mu=1.25, bulk=50.0)), f)])
     add("hex-nearly-incompressible", cube,
-        lambda f, sv=None: [fem.SolidBodyNearlyIncompressible(fem.NeoHooke(mu=1.0), f, bulk=500.0)])
+        lambda f, sv=None: [fem.SolidBodyNearlyIncompressible(fem.NeoHooke(mu=1.25), f, bulk=500.0)])
 
     def tet():
         mesh = fem.Cube(n=3).triangulate()
@@ -122,7 +122,7 @@ def problems(tier):
         region = f.region
         bregion = fem.RegionHexahedronBoundary(region.mesh, mask=region.mesh.points[:, 1] == 1.0)
         bfield = fem.FieldContainer([fem.Field(bregion, dim=3)])
-        return [fem.SolidBody(fem.NeoHooke(mu=1.0, bulk=5.0), f), fem.SolidBodyPressure(bfield, pressure=0.1)]
+        return [fem.SolidBody(fem.NeoHooke(mu=1.25, bulk=5.0), f), fem.SolidBodyPressure(bfield, pressure=0.1)]
 
     add("hex-neohooke-pressure", cube, with_pressure)
 
@@ -133,7 +133,7 @@ def problems(tier):
     add("hex-linear-pointload", cube, with_pointload, linear=True)
 
     def with_gravity(f, sv=None):
-        return [fem.SolidBody(fem.NeoHooke(mu=1.0, bulk=5.0), f), fem.SolidBodyGravity(f, gravity=[0, 0, -0.2], density=1.0)]
+        return [fem.SolidBody(fem.NeoHooke(mu=1.25, bulk=5.0), f), fem.SolidBodyGravity(f, gravity=[0, 0, -0.2], density=1.0)]
 
     add("hex-neohooke-gravity", cube, with_gravity)
 
